@@ -290,6 +290,7 @@ class Outcome:
     effects: Tuple[Term, ...]
     asserts: Tuple[Term, ...] = ()
     lineno: int = 0
+    env: Optional[Dict[str, Term]] = None
 
     def __repr__(self):
         g = ' & '.join(('' if pol else 'not ') + repr(t) for t, pol in self.guards)
@@ -606,7 +607,7 @@ class Evaluator:
         outs: List[Outcome] = []
         finals = self.block(fi.node.body, [st], fi.module, fi, depth, outs)
         for s in finals:
-            outs.append(Outcome('fall', NONE, s.guards, s.effects, s.asserts, fi.node.end_lineno or 0))
+            outs.append(Outcome('fall', NONE, s.guards, s.effects, s.asserts, fi.node.end_lineno or 0, dict(s.env)))
         return outs
 
     def bind_call(self, fi: FunctionInfo, recv: Optional[Term], args: Tuple[Term, ...], kwargs: Tuple[Tuple[str, Term], ...], depth: int) -> Optional[Dict[str, Term]]:
@@ -718,13 +719,13 @@ class Evaluator:
             v = self.expr(s.value, st, mod, fi, depth) if s.value is not None else NONE
             for g, leaf in alternatives(v):
                 if isinstance(leaf, Raises):
-                    outs.append(Outcome('raise', leaf.exc, st.guards + g, st.effects, st.asserts, s.lineno))
+                    outs.append(Outcome('raise', leaf.exc, st.guards + g, st.effects, st.asserts, s.lineno, dict(st.env)))
                 else:
-                    outs.append(Outcome('return', leaf, st.guards + g, st.effects, st.asserts, s.lineno))
+                    outs.append(Outcome('return', leaf, st.guards + g, st.effects, st.asserts, s.lineno, dict(st.env)))
             return []
         if isinstance(s, ast.Raise):
             v = self.expr(s.exc, st, mod, fi, depth) if s.exc is not None else Opaque('reraise')
-            outs.append(Outcome('raise', v, st.guards, st.effects, st.asserts, s.lineno))
+            outs.append(Outcome('raise', v, st.guards, st.effects, st.asserts, s.lineno, dict(st.env)))
             return []
         if isinstance(s, ast.Expr):
             if isinstance(s.value, ast.Constant):
